@@ -28,9 +28,9 @@ func init() {
 				Blocks:   16,
 				Procs:    16,
 				Rule: "(a) deterministic runs: buffer sizes 2..64 and a few large ones, streams whose number of distinct values is below, at and far above the size, every value repeated 1..4 times in interleaved order, Reset at random points; after EVERY Add: Count == exact number of distinct values while fewer than size distinct values have been added since creation/Reset, Len <= size, Count == Len * 2^j with j an integer that never decreases until Reset; after Reset: Len == 0, Count == 0 and the exact regime again. " +
-					"(b) statistical configurations (size, D): sizes 8, 16, 64 with D below, 10x and 100x the size using R = 4000 (40000 thorough) independent seeded counters each, sizes 4, 5, 6 with D = 48 and 600 using R = 200000 (larger R because the estimator is more skewed there), sizes 64..256 with enough distinct values for many halving rounds, and scripted streams that sit just above capacity with the zero value of the element type at the critical position (first Add after the buffer fills, first Add overall, back-to-back repeats), and streams counted after a Reset that followed a long run far above capacity; the fixed stream repeats every value 1..3 times, interleaved; |mean(Count) - D| <= 7 * sd/sqrt(R) + 0.002 * D. (c) natively seeded counters (the reseeding hook is not used: NewCounter's own seeding is part of what is monitored): 20 000..140 000 counters per configuration on one stream, mean test as above, and no lag L at which run r and run r+L agree at all of 8 checkpoints for 99 % of 300+ pairs (independence of repeated runs). Sizes 2 and 3 get the deterministic clauses only (estimator too heavy-tailed for a CLT-based tolerance). " +
+					"(b) statistical configurations (size, D): sizes 8, 16, 64 with D below, 10x and 100x the size using R = 4000 (40000 thorough) independent seeded counters each, sizes 4, 5, 6 with D = 48 and 600 using R = 200000 (larger R because the estimator is more skewed there), sizes 64..256 with enough distinct values for many halving rounds, and scripted streams that sit just above capacity with the zero value of the element type at the critical position (first Add after the buffer fills, first Add overall, back-to-back repeats), and streams counted after a Reset that followed a long run far above capacity; the fixed stream repeats every value 1..3 times, interleaved; |mean(Count) - D| <= 7 * sd/sqrt(R) + 0.002 * D. (c) natively seeded counters (the reseeding hook is not used: NewCounter's own seeding is part of what is monitored): 20 000..140 000 counters per configuration on one stream, mean test as above, and no lag L at which run r and run r+L agree at all of 8 checkpoints for 99 % of 300+ pairs (independence of repeated runs). (d) scripted coin flips (hook VerifSetSource): counters taken through up to 60 halving rounds in a few thousand Adds, deterministic clauses checked after every Add. Sizes 2 and 3 get the deterministic clauses only (estimator too heavy-tailed for a CLT-based tolerance). " +
 					"All randomness derives from VERIF_SEED. distinct = hash(size, stream, seed) of deterministic runs + one per statistical configuration; non-trivial = the run went above capacity (at least one halving)",
-				Required:     []string{"deterministic_runs", "adds_checked", "exact_regime_checks", "halvings_observed", "resets", "statistical_configs", "statistical_runs", "runs_with_repeats_above_capacity", "resets_on_empty_buffer", "natively_seeded_runs"},
+				Required:     []string{"deterministic_runs", "adds_checked", "exact_regime_checks", "halvings_observed", "resets", "statistical_configs", "statistical_runs", "runs_with_repeats_above_capacity", "resets_on_empty_buffer", "natively_seeded_runs", "scripted_coin_runs"},
 				Assumptions:  []string{"CLT tolerance: 7 sample standard errors + 0.2 % of D; measured skewness is reported in the evidence (|skew| * 343 / (6 sqrt(R)) stays below 1, so the normal tail 2.6e-12 is off by a small factor only)", "the hook distinct.VerifReseed only replaces the random source of a counter built by NewCounter"},
 				CoverPkgs:    []string{"github.com/creachadair/mds/distinct"},
 				CoverAnchors: []string{"distinct/distinct.go:NewCounter", "distinct/distinct.go:Add", "distinct/distinct.go:Count", "distinct/distinct.go:Len", "distinct/distinct.go:Reset"},
@@ -383,6 +383,17 @@ func c19native(c *fw.Ctx, size, D, R int) {
 }
 
 func runC19(c *fw.Ctx) {
+	for k := 0; k < 6; k++ {
+		if !c.Begin(1<<22 + k) {
+			continue
+		}
+		size := []int{2, 3, 5, 16, 64, 300}[k]
+		seed := c.Rng().Uint64()
+		ok, pv, stack := fw.Try(func() { c19scripted(c, size, seed) })
+		if !ok {
+			c.FailKind("panic", map[string]any{"phase": "scripted coin flips", "size": size}, "panic: %v\n%s", pv, stack)
+		}
+	}
 	if c.Begin(1<<21 + c.Block) {
 		// natural seeding: many more counters than any plausible period of a seed sequence
 		cfgs := [][3]int{{8, 80, 40000}, {16, 300, 30000}, {32, 400, 70000}, {64, 640, 20000}, {5, 48, 140000}, {100, 1000, 20000}, {12, 100, 66000}, {24, 200, 33000}}
@@ -434,4 +445,86 @@ func runC19(c *fw.Ctx) {
 			c.FailKind("panic", map[string]any{"phase": "statistical", "config": cfg}, "panic: %v\n%s", pv, stack)
 		}
 	}
+}
+
+// c19scripted: the counter's coin flips are scripted (hook VerifSetSource), so
+// that it goes through 50 and more halving rounds in a few thousand Adds: every
+// other acceptance draw lands just below the threshold, every other just at
+// it, and the halving passes keep a pseudo-random half. Each such outcome has
+// a positive (if tiny) probability, and the deterministic clauses of the
+// property hold for every outcome: Len <= size, Count == Len * 2^k with k
+// never decreasing, exact counting restored by Reset. (Rounds beyond 60 -
+// more than 2^60 distinct values - are not examined.)
+type c19script struct {
+	ctr   *distinct.Counter[int]
+	n     uint64
+	state uint64
+	mode  int // what the next draw is for: set by the monitor before each Add
+}
+
+func (s *c19script) Uint64() uint64 {
+	s.n++
+	s.state = s.state*6364136223846793005 + 1442695040888963407
+	if s.mode == 1 { // the acceptance draw of the Add that follows
+		s.mode = 2
+		p := distinct.VerifThreshold(s.ctr)
+		if s.n%2 == 0 || p == 0 {
+			return p // rejected (draw >= p)
+		}
+		return p - 1 // accepted
+	}
+	return s.state ^ s.state>>29 // halving pass: an arbitrary half survives
+}
+
+func c19scripted(c *fw.Ctx, size int, seed uint64) {
+	ctr := distinct.NewCounter[int](size)
+	sc := &c19script{ctr: ctr, state: seed}
+	distinct.VerifSetSource(ctr, sc)
+	data := map[string]any{"size": size, "coin_flips": "scripted (hook VerifSetSource): acceptance draws alternate just below / at the threshold, halving passes keep a pseudo-random half"}
+	var prevShift int = -1
+	maxRounds := 0
+	for v := 0; v < 40000; v++ {
+		if distinct.VerifThreshold(ctr) < 1<<(bits.Len(uint(size))+6) {
+			break // stay where Len * 2^k is far from the end of uint64 (estimates beyond 2^58 are not examined)
+		}
+		sc.mode = 1
+		ctr.Add(v)
+		ln, cnt := ctr.Len(), ctr.Count()
+		if ln > size {
+			c.Fail(data, "after %d Adds: Len=%d exceeds the buffer size %d", v+1, ln, size)
+			return
+		}
+		if ln > 0 {
+			if cnt%uint64(ln) != 0 {
+				c.Fail(data, "after %d Adds: Count=%d is not a multiple of Len=%d", v+1, cnt, ln)
+				return
+			}
+			f := cnt / uint64(ln)
+			if f&(f-1) != 0 {
+				c.Fail(data, "after %d Adds: Count=%d is Len=%d times %d, which is not a power of two", v+1, cnt, ln, f)
+				return
+			}
+			shift := bits.TrailingZeros64(f)
+			if shift < prevShift {
+				c.Fail(data, "after %d Adds: Count/Len went down from 2^%d to 2^%d without a Reset", v+1, prevShift, shift)
+				return
+			}
+			prevShift = shift
+			maxRounds = max(maxRounds, shift)
+		}
+		if v%512 == 0 {
+			c.Step()
+		}
+	}
+	ctr.Reset()
+	for v := 0; v < size-1; v++ {
+		sc.mode = 1
+		ctr.Add(1000000 + v)
+	}
+	if ctr.Len() != size-1 || ctr.Count() != uint64(size-1) {
+		c.Fail(data, "after Reset following %d halving rounds and %d further distinct values: Len=%d Count=%d", maxRounds, size-1, ctr.Len(), ctr.Count())
+		return
+	}
+	c.Add("scripted_coin_runs", 1)
+	c.Max("max:halving_rounds_reached", int64(maxRounds))
 }
